@@ -14,6 +14,11 @@ CHECKS = {
    text="C01 is a decidable monitor over observable traces (Props/C01.lean); theorem C01.holds proves every run of the model of Processor.Process is accepted, for every configuration, callback behaviour and packet list of any length; corollaries at_most_one_dial, dial_only_when_authorized, relay_only_when_open, after_stop_inert, out_of_phase_never_success. The model is tied to the code by running the real packet loop over scripted transports with loopback hosts on generated and exhaustively enumerated packet histories and comparing traces with the model; the same monitor is evaluated on every implementation trace.",
    design="6/C01",
    note="Not modelled: the transports themselves (scripted in the hook tier), TCP dial timing, callbacks (parameters of the theorem). Dial failures are not observable and are compared through the response only."),
+ "C07": dict(
+   technique="Lean 4 invariant and non-interference theorems about a transition system over all tunnels of a gateway process (shared cache, tunnel heap, per-connection loops; every event sequence = every interleaving) + differential correspondence of N simultaneous real tunnels against Multi.run, with mismatches classified by running the tunnel alone in a fresh process",
+   text="step_inv / run_inv (inductive invariant: cache entries point at tunnels with that identifier; every attached connection carried the tunnel's identifier; a connection is attached to at most one tunnel ever; every log entry is addressed to an attached connection), pairing, in_without_out_refused, conn_one_tunnel, client_hears_own_host, host_hears_own_client, step_other (locality), req_other_id (a request with identifier i never changes a tunnel with another identifier), pkt_other, host_changes_nothing, pkt_own (a packet acts on its tunnel exactly as Tunnel.step in an environment computed from that tunnel alone), untouched (non-interference over runs), identity_stable in Props/C07.lean. Tie: rounds of up to 12 (quick) / 64 (thorough) simultaneous tunnels on websocket and legacy transports through the real handler, EnrichContext, CheckPAACookie and CheckSession(CheckHost) with tokens from the real minting code and a fake IdP; tagged payloads both ways; tunnels presenting another tunnel's token, asking for another's host, holding a token minted for another user's host, or sharing a user and access token; stray RDG_IN_DATA requests with unknown / near-miss / other tunnels' identifiers; random merges of the per-tunnel scripts and one-driver-per-tunnel runs. Per-tunnel responses, relayed bytes and backend bytes are compared with Multi.run on the issued event trace; foreign payloads and refused tunnels reaching a host are violations by themselves.",
+   design="6/C07",
+   note="One gateway request per TCP connection is assumed (the handler hijacks the connection). Tunnels with equal identifiers (which the property excludes) share a Tunnel object in the code and in the model; nothing is claimed for them."),
  "C08": dict(
    technique="Lean 4 refinement theorem (incremental reader = segmentation-free stream parser, induction over reads) + differential correspondence with the real Tunnel.Read loop and packet loop under exhaustive one/two-cut and random segmentations",
    text="Theorems reader_refines_stream, segmentation_independent, stream_of_packets, packets_of_any_segmentation, bad_length_ends, incomplete_ends, same_effects (Props/C08.lean) hold for every list of transport reads of any length; the pinned one-shot algorithm is refuted by closed witnesses (legacy_*), which is defect D1/D2, repaired by a fix: commit. The model is tied to the code by running the real Tunnel.Read loop (and the whole packet loop for same_effects) over scripted transports with exact read boundaries; the property itself (same packets as for the unsegmented stream) is also evaluated on the implementation directly.",
